@@ -198,7 +198,7 @@ def observe_impl(v):
     if isinstance(v, BaseException):
         return {"kind": "E", "cls": type(v).__name__, "err": ERRMAP.get(type(v).__name__, "EPyValue"), "msg": str(v)[:200]}
     if isinstance(v, torchtt.TT):
-        cores = [c.detach().cpu().numpy() for c in v.cores]
+        cores = [c.detach().cpu().resolve_conj().numpy() for c in v.cores]
         o = {"kind": "M" if v.is_ttm else "T", "R": [int(r) for r in v.R], "N": [int(n) for n in v.N],
              "dtype": str(cores[0].dtype) if cores else None,
              "core_dtypes": sorted(set(str(c.dtype) for c in cores)),
@@ -212,14 +212,14 @@ def observe_impl(v):
         except Exception as e:
             o["dense"] = None; o["dense_err"] = repr(e)
         try:
-            f = v.full().detach().cpu().numpy()
+            f = v.full().detach().cpu().resolve_conj().numpy()
             o["full_shape"] = list(f.shape)
             o["full_matches_cores"] = bool(o.get("dense_raw") is not None and f.size == o["dense_raw"].size and np.array_equal(f.reshape(-1), o["dense_raw"].reshape(-1)))
         except Exception as e:
             o["full_shape"] = None; o["full_err"] = type(e).__name__
         return o
     if torch.is_tensor(v):
-        a = v.detach().cpu().numpy()
+        a = v.detach().cpu().resolve_conj().numpy()
         return {"kind": "D", "shape": list(a.shape), "dense": ttgen.exact_ints(a), "dense_raw": a, "dtype": str(a.dtype)}
     if v is None:
         return {"kind": "N"}
@@ -262,3 +262,121 @@ def run_dense(e, dtype, env=None):
             return e.dense(env or [], dtype)
     except Exception as ex:
         return ex
+
+
+# ---------------------------------------------------------------- C09: structural operations
+def _pad_args(ia):
+    return tuple((int(p[0]), int(p[1])) for p in ia[1:])
+def _pad_impl(a, ia):
+    _, torchtt = _imp()
+    return torchtt.pad(a[0], _pad_args(ia), a[1])
+def _pad_dense(a, ia):
+    torch, _ = _imp()
+    import torch.nn.functional as F
+    kind, d = ia[0]
+    pads = [(0, 0)] * (d - len(ia) + 1) + list(_pad_args(ia))
+    x, v = a[0], a[1]
+    if kind == 0:
+        flat = []
+        for p in reversed(pads): flat += [p[0], p[1]]
+        return F.pad(x, flat, value=v)
+    # operator: original block kept, value * identity on the leading and trailing corner blocks
+    Ms, Ns = list(x.shape[:d]), list(x.shape[d:])
+    out = torch.zeros([p[0] + m + p[1] for m, p in zip(Ms, pads)] + [p[0] + n + p[1] for n, p in zip(Ns, pads)], dtype=x.dtype)
+    out[tuple(slice(p[0], p[0] + m) for m, p in zip(Ms, pads)) + tuple(slice(p[0], p[0] + n) for n, p in zip(Ns, pads))] = x
+    import itertools
+    for lead in itertools.product(*[range(p[0]) for p in pads]):
+        out[tuple(lead) + tuple(lead)] = v
+    for tr in itertools.product(*[range(p[1]) for p in pads]):
+        out[tuple(p[0] + m + t for t, m, p in zip(tr, Ms, pads)) + tuple(p[0] + n + t for t, n, p in zip(tr, Ns, pads))] = v
+    return out
+def _mprod_impl(a, ia):
+    modes = list(ia[0])
+    if len(modes) == 1 and ia[1] == [0]:
+        return a[0].mprod(a[1], modes[0])
+    return a[0].mprod(list(a[1:]), modes)
+def _mprod_dense(a, ia):
+    torch, _ = _imp()
+    x = a[0]
+    for k, m in zip(ia[0], a[1:]):
+        x = torch.movedim(torch.tensordot(m, x, dims=([1], [k])), 0, k)
+    return x
+def _diag_dense(a, ia):
+    torch, _ = _imp()
+    x = a[0]
+    if ia[0][0] == 0:
+        d = x.dim()
+        out = torch.zeros(list(x.shape) + list(x.shape), dtype=x.dtype)
+        import itertools
+        for idx in itertools.product(*[range(n) for n in x.shape]):
+            out[tuple(idx) + tuple(idx)] = x[tuple(idx)]
+        return out
+    d = ia[0][1]
+    shp = [min(x.shape[k], x.shape[d + k]) for k in range(d)]
+    out = torch.zeros(shp, dtype=x.dtype)
+    import itertools
+    for idx in itertools.product(*[range(n) for n in shp]):
+        out[tuple(idx)] = x[tuple(idx) + tuple(idx)]
+    return out
+IMPL_OPS.update({
+    "OCat": lambda a, ia: _imp()[1].cat(tuple(a), ia[0][0]),
+    "OPad": _pad_impl, "OMprod": _mprod_impl,
+    "ODiag": lambda a, ia: _imp()[1].diag(a[0]),
+    "OToTTM": lambda a, ia: a[0].to_ttm(),
+    "OConj": lambda a, ia: a[0].conj(),
+    "OClone": lambda a, ia: a[0].clone(),
+})
+DENSE_OPS.update({
+    "OCat": lambda a, ia: _imp()[0].cat(tuple(a), ia[0][0]),
+    "OPad": _pad_dense, "OMprod": _mprod_dense, "ODiag": _diag_dense,
+    "OToTTM": lambda a, ia: a[0].reshape(list(a[0].shape) + [1] * a[0].dim()),
+    "OConj": lambda a, ia: a[0].conj().resolve_conj(),
+    "OClone": lambda a, ia: a[0].clone(),
+})
+
+# ---------------------------------------------------------------- C08: indexing
+def _zopt(v):
+    return "None" if v is None else "(Some (%d)%%Z)" % v
+class Get:
+    """x[index]; items: ('i', z) | ('s', a, b, step) | ('n',) | ('e',); tuple_=False for a bare int / slice / Ellipsis"""
+    name = "EGet"
+    def __init__(self, x, items, tuple_=True):
+        self.x, self.items, self.tuple_ = x, list(items), tuple_
+        self.args = [x]
+    def pyindex(self):
+        out = []
+        for it in self.items:
+            if it[0] == "i": out.append(int(it[1]))
+            elif it[0] == "s": out.append(slice(it[1], it[2], it[3]))
+            elif it[0] == "n": out.append(None)
+            else: out.append(Ellipsis)
+        return tuple(out) if self.tuple_ else out[0]
+    def coq(self, car):
+        its = []
+        for it in self.items:
+            if it[0] == "i": its.append("IInt (%d)%%Z" % it[1])
+            elif it[0] == "s": its.append("ISlice %s %s %s" % (_zopt(it[1]), _zopt(it[2]), _zopt(it[3])))
+            elif it[0] == "n": its.append("INone")
+            else: its.append("IEll")
+        return "EGet (%s) %s [%s]" % (self.x.coq(car), "true" if self.tuple_ else "false", ";".join(its))
+    def impl(self, env, dtype): return self.x.impl(env, dtype)[self.pyindex()]
+    def dense(self, env, dtype): return self.x.dense(env, dtype)[self.pyindex()]
+    def desc(self): return {"get": self.x.desc(), "items": [list(map(str, it)) for it in self.items], "tuple": self.tuple_}
+    def to_json(self): return {"get": self.x.to_json(), "items": [list(it) for it in self.items], "tuple": self.tuple_}
+
+class Mask:
+    name = "EMask"
+    def __init__(self, x, rows):
+        self.x, self.rows = x, [list(r) for r in rows]
+        self.args = [x]
+    def coq(self, car): return "EMask (%s) %s" % (self.x.coq(car), nnlist(self.rows))
+    def impl(self, env, dtype):
+        torch, _ = _imp()
+        return self.x.impl(env, dtype).apply_mask(torch.tensor(self.rows, dtype=torch.int64))
+    def dense(self, env, dtype):
+        torch, _ = _imp()
+        a = self.x.dense(env, dtype)
+        v = torch.stack([a[tuple(r)] for r in self.rows])
+        return v[0] if len(self.rows) == 1 else v
+    def desc(self): return {"mask": self.x.desc(), "rows": len(self.rows)}
+    def to_json(self): return {"mask": self.x.to_json(), "rows": self.rows}
